@@ -19,6 +19,17 @@ CLAIMED = {
         ref='DESIGN.md section 3, C01'),
 }
 
+CLAIMED['C12'] = dict(
+    technique='who-may-read + guard/dominance rules on the statement CFG of the writers',
+    text='Static: every read of a documentable URL and every href value is classified (page context / visibility guarded / built by '
+         'linker.taglink behind a visibility test whose failing branch returns a non-link) (R12.1); every primary enumeration of model '
+         'objects in the listing producers (templatewriter/**, SphinxInventoryWriter) is visibility filtered by an accepted idiom (R12.2); '
+         'isVisible combines own privacy with the parent (R12.3); every listing-entry constructor emits the private marker (R12.4). '
+         'Decides the guard structure on all present and future call sites, not the rendered output.',
+    note='Trusts that pages/child blocks are only built for objects that passed the guards checked here, that templates do not enumerate '
+         'objects themselves, and the reasoned exception table NOT_A_LISTING (5 loops that compute names/booleans only).',
+    ref='DESIGN.md section 3, C12')
+
 NOT_APPLICABLE = {
     'C04': 'relation between expandName results and the interpreter import system over all projects: value computations, no clause visible in the shape of the code (DESIGN.md section 5)',
     'C06': 'quantifies over processing schedules; name resolution during the AST walk is order sensitive by design, no structural bound (DESIGN.md section 5); the one structural fact (post-processing after the drain loop) is checked under C05',
